@@ -507,6 +507,22 @@ Definition spec_case (c : case) : bool :=
   | ChainCase p _ _ _ _ _ d rep => scan_spec p d None rep
   end.
 
+(* the reading of a WIDE regexp the chain bookkeeping implements (known finding
+   C01:scan:wide-regexp-split-at-large-gap): the pieces widened, the gaps between
+   them plain byte distances.  Only used to classify findings. *)
+Definition wide_byte_gap_re (r : re) : re :=
+  let c := split_at_large_gaps (flat_items r) in
+  rcat (widen_re (fst c) :: flat_map (fun gp => [jump_of (fst gp); widen_re (snd gp)]) (snd c)).
+Definition wide_byte_gap_explains (p : pat) (d : bytes) (rep : list triple) : bool :=
+  match p with
+  | PRegexp r m =>
+      rm_wide m &&
+      forallb (fun t => let s := N.to_nat (t_start t) in
+                        matches_b (rm_nocase m) d (wide_byte_gap_re r) s (s + N.to_nat (t_len t)) ||
+                        (rm_ascii m && matches_b (rm_nocase m) d r s (s + N.to_nat (t_len t)))) rep
+  | _ => false
+  end.
+
 (* which part of the specification fails on a scan case (bit mask; used only to
    classify findings): 1 panic / matched bytes wrong, 2 a reported match is not
    genuine, 4 offsets not strictly ascending, 8 a required start is missing,
@@ -518,7 +534,8 @@ Definition diagnose (c : case) : N :=
       (if panicked then 1 else 0) + (if sound_b p d rs rep then 0 else 2) +
       (if ascending_b (map t_start rep) then 0 else 4) +
       (if limit_reached mm rep || complete_b p d rs rep then 0 else 8) +
-      (if count_ok mm rep then 0 else 16)
+      (if count_ok mm rep then 0 else 16) +
+      (if sound_b p d rs rep then 0 else if wide_byte_gap_explains p d rep then 65536 else 0)
   | MLPanicCase _ => 33
   (* stream (d): 64 the dumped sub-patterns are not the ones compile_text / the hex model
      expects, 128 atoms_ok is false on the real atoms, 256 the pipeline model run on the
@@ -538,6 +555,7 @@ Definition diagnose (c : case) : N :=
       (if sound_b p d rs rep then 0 else 2) + (if ascending_b (map t_start rep) then 0 else 4) +
       (if complete_b p d rs rep then 0 else 8) +
       (if chain_check p pieces atoms k hits evs d rep then 0 else 256) +
-      1024 * chain_check_bits p pieces atoms k hits evs d rep
+      1024 * chain_check_bits p pieces atoms k hits evs d rep +
+      (if sound_b p d rs rep then 0 else if wide_byte_gap_explains p d rep then 65536 else 0)
   | _ => 32
   end.
